@@ -194,7 +194,23 @@ def cz_cases(ctx):
             for name, meth in (("single_col_zone.cz_move", single_col_zone.cz_move), ("stdlib.moves.default_move_cz", old_moves.default_move_cz)):
                 judge(ctx, name, f"layout {nx}x{ny}@{s} ctrl=({cx},{cy}) qarg=({qx},{qy})", S, meth, (I(cx), I(cy), I(qx), I(qy)), valid,
                       lambda before: {a: p for p, a in before.items()})
-
+    # the deprecated move on the layout ITS OWN (deprecated) builder provides (tall, wide and square requests): valid calls anywhere on
+    # the requested lattice are accepted and bring the control atoms back
+    from bloqade.shuttle.stdlib import spec as old_spec
+    for nx, ny, s in ctx.pick([(2, 4, 10.0), (1, 3, 4.0), (3, 2, 10.0)], [(nx, ny, s) for nx in (1, 2, 3, 4) for ny in (1, 2, 3, 4) for s in (4.0, 10.0)]):
+        try:
+            SO = old_spec.single_zone_spec(nx, ny, s)
+        except Exception as e:
+            ctx.evaluations += 1
+            ctx.fail({"move": "stdlib.moves.default_move_cz", "kind": "valid-input-rejected", "error": type(e).__name__, "layout": "stdlib.spec.single_zone_spec"},
+                     {"move": "stdlib.moves.default_move_cz", "call": f"single_zone_spec({nx}, {ny}, {s})"}, f"stdlib.spec.single_zone_spec({nx}, {ny}, {s}) raises {type(e).__name__}")
+            continue
+        rows = [[ny - 1]] + ([[0, ny - 1]] if ny > 1 else []) + ([[ny - 2, ny - 1]] if ny > 2 else [])
+        cols = [([0], [nx - 1])] if nx > 1 else []
+        cols += [([0, 1], [1, 2])] if nx > 2 else []
+        for (cx, qx), cy in itertools.product(cols, rows):
+            judge(ctx, "stdlib.moves.default_move_cz", f"layout stdlib.spec.single_zone_spec({nx}, {ny}, {s}) ctrl=({cx},{cy}) qarg=({qx},{cy})", SO, old_moves.default_move_cz,
+                  (I(cx), I(cy), I(qx), I(cy)), True, lambda before: {a: p for p, a in before.items()})
 
 def rearrange_cases(ctx):
     from bloqade.shuttle.stdlib.layouts import two_col_zone
@@ -432,6 +448,17 @@ def user_program_cases(ctx):
             except Exception as e:
                 ctx.evaluations += 1
                 ctx.fail({"move": "program/rearrange", "kind": "valid-input-rejected", "error": type(e).__name__}, {"move": "program/rearrange", "call": lab},
+                         f"{lab}: refused at definition: {type(e).__name__}: {str(e)[:120]}")
+            # the same call with every operand bound by KEYWORD, written in another order than the parameters
+            src = f"@move{dec}\ndef prog():\n    rearrange(dst_y={dy}, src_x={sx}, dst_x={dx}, src_y={sy})\n"
+            lab = f"user program @move{dec}{'+' + post if post else ''}: rearrange(dst_y={dy}, src_x={sx}, dst_x={dx}, src_y={sy}) on layout 2x3@10.0/2.0"
+            try:
+                m = build(src, "prog", S, post, rearrange=two_col_zone.rearrange)
+                n += 1
+                judge(ctx, "program/rearrange", lab, S, m, (), True, end, extra_occupied=src_s, sig_extra={"keywords": True})
+            except Exception as e:
+                ctx.evaluations += 1
+                ctx.fail({"move": "program/rearrange", "kind": "valid-input-rejected", "error": type(e).__name__, "keywords": True}, {"move": "program/rearrange", "call": lab},
                          f"{lab}: refused at definition: {type(e).__name__}: {str(e)[:120]}")
             # the same call after a call whose lists are empty at run time (the library's documented no-op), and followed by another no-op
             src = ("@move" + dec + "\ndef prog(e: ilist.IList[int, Any], a: ilist.IList[int, Any], b: ilist.IList[int, Any], c: ilist.IList[int, Any], d: ilist.IList[int, Any]):\n"
